@@ -259,11 +259,18 @@ def solver_records(rng, count):
     for _ in range(count):
         n = rng.choice([2, 3, 5, 8, 16])
         dt = rng.choice([torch.float32, torch.float64])
-        spec = spectrum_class(rng, n, rng.choice(["distinct", "repeated", "rankdef", "graded", "zero"]))
-        A, q, lam = build_matrix(spec, rng.choice([1e-3, 1.0, 1e3]), n, gen, dt)
+        if rng.random() < 0.35:
+            # badly conditioned dense input (cond 1e4 .. 1e9): where the solvers' flags and guard matter
+            lam = torch.logspace(0, -rng.choice([4, 5, 6, 7, 8, 9]), n, dtype=F64)
+            qh = haar(n, gen)
+            A = (qh * lam) @ qh.T
+            A = ((A + A.T) / 2).to(dt)
+        else:
+            spec = spectrum_class(rng, n, rng.choice(["distinct", "repeated", "rankdef", "graded", "zero"]))
+            A, q, lam = build_matrix(spec, rng.choice([1e-3, 1.0, 1e3]), n, gen, dt)
         solver = rng.choice(["newton", "higher"])
         maxit = rng.choice([1, 2, 3, 5, 20, 100])
-        tol = rng.choice([1e-2, 1e-6, 1e-8, 1e-12, 0.0])
+        tol = rng.choice([1e-2, 1e-4, 1e-6, 1e-8, 1e-12, 0.0])
         eps = rng.choice([1e-12, 1e-6, 1e-4, 1e-1])      # epsilon > 0 is the documented domain (a zero matrix with epsilon 0 makes the residual NaN)
         before = torch.backends.cuda.matmul.allow_tf32
         flip = rng.random() < 0.5
@@ -280,7 +287,13 @@ def solver_records(rng, count):
                 X, M, flag, it, terr = mf._matrix_inverse_root_higher_order(A, root, abs_epsilon=eps, max_iterations=maxit, tolerance=tol,
                                                                              order=rng.choice([2, 3, 4]))
                 resid = float(torch.linalg.vector_norm(M - torch.eye(n, dtype=dt), torch.inf))
-                rec.update(result="returned", flag=flag.name, it=int(it), err_le_tol=bool(resid <= tol), true_le_guard=bool(float(terr) <= 0.1),
+                # the guard, recomputed by the harness from the returned X (before powering only when the root is an integer)
+                guard_ok = float(terr) <= 0.1
+                if root.denominator == 1 and bool(torch.isfinite(X).all()):
+                    ridge = A + eps * torch.eye(n, dtype=dt)
+                    mine = float(torch.linalg.vector_norm(ridge @ torch.linalg.matrix_power(X, root.numerator) - torch.eye(n, dtype=dt), torch.inf))
+                    guard_ok = guard_ok and mine <= 0.1 * 1.5
+                rec.update(result="returned", flag=flag.name, it=int(it), err_le_tol=bool(resid <= tol), true_le_guard=bool(guard_ok),
                            finite=bool(torch.isfinite(X).all()))
         except ArithmeticError:
             rec.update(result="ArithmeticError", flag="none", it=0, err_le_tol=False, true_le_guard=False, finite=False)
